@@ -34,3 +34,53 @@ PROPS["C18"] = {
     "level_note": "Trusted: Coq kernel; the hand-written byte model and its agreement with keys.go as far as generated keys go; separate stores per module (app wiring). One defect found by the proof (uint8 wrap for 255-byte senders) was repaired by a fix: commit and is kept as a _legacy refutation.",
     "technique": "Coq proof over list N byte strings + in-Coq differential check of the key builders/parsers",
 }
+
+
+# ---- properties decided on the application model (chain harness) ----
+CAT = {"bank": 1, "ent": 2, "wrk": 3, "bcn": 4, "str": 5, "supplyq": 6, "result": 7, "halt": 8, "params": 9}
+APP_MODEL_TARGETS = ["model/AppCheck.vo"]
+APP_TRUSTED = [
+    "modelled, not verified: cosmos-sdk v0.47 baseapp.runTx (ante cache / message cache / panic recovery), x/bank send/mint/burn and the blocked-address rule, x/auth fee deduction and signature verification (one bit per tx), x/authz generic grants and MsgExec dispatch, x/feegrant basic allowances, x/gov (only: which proposal messages were executed in which EndBlock, taken from the real chain), math.LegacyDec arithmetic",
+    "not modelled: gas, sequences, vesting accounts, IBC, staking/distribution internals (fee collector and distribution balances are not compared)",
+    "addresses are abstract integers (scenario accounts >= 0, module accounts negative); bech32 spelling is not modelled (the harness uses canonical lower-case addresses)",
+]
+
+def chain(focus, quick_n, thorough_n, blocks=10, props=None, extra=None):
+    q = ["-n", quick_n, "-blocks", blocks, "-focus", focus, "-shard", 8]
+    t = ["-n", thorough_n, "-blocks", blocks + 6, "-focus", focus, "-shard", 10]
+    if props:
+        q += ["-props", props]; t += ["-props", props]
+    if extra:
+        q += extra; t += extra
+    return {"cmd": "chain", "quick": q, "thorough": t, "timeout": 7200}
+
+def app_prop(pid, focus, cats, level_text, level_note, quick_n=48, thorough_n=1500, extra_harness=None, technique=None):
+    PROPS[pid] = {
+        "model_targets": APP_MODEL_TARGETS + (extra_harness or {}).get("model_targets", []),
+        "harness": [chain(focus, quick_n, thorough_n, props=pid)] + (extra_harness or {}).get("harness", []),
+        "corr_categories": [CAT[c] for c in cats] + [CAT["result"], CAT["halt"]],
+        "trusted_base": APP_TRUSTED,
+        "assumptions": ["histories are generated (structured random); the theorems, not the histories, carry the universal claim"],
+        "level_text": level_text, "level_note": level_note,
+        "technique": technique or "Coq proof (invariants by induction over all operation histories of the executable model) + in-Coq differential replay of real ABCI histories against the model + property monitors on the real application",
+    }
+
+app_prop("C07", "reg,mixed", ["wrk", "bcn"],
+    "Coq theorems over all histories of the registry model (written once, instantiated for WRKChain and BEACON): a ghost log of accepted records only grows; every accepted record is, after any later history, either returned bit-for-bit or pruned (key below the lowest retained one), and everything queryable was accepted exactly so; WRKChain heights strictly increase; BEACON timestamp ids are 1,2,3,...; a rejected submission leaves the state unchanged. The model is replayed against real ABCI histories (every record ever accepted is re-read after every operation).",
+    "Trusted: Coq kernel; hand-written registry model and its agreement with x/wrkchain, x/beacon as far as generated histories go; counters advanced once per transaction are unbounded integers in the model (2^64 transactions are out of reach).")
+app_prop("C08", "reg,mixed", ["wrk", "bcn"],
+    "Coq theorems: in every reachable state the records in state of a registration are exactly the last n accepted ones, n evolving by n' = min(n+1, limit) (closed form min(total, limit) when no purchase follows a pruning); counters NumBlocks/NumInState, Lowest/First, Last equal what the store holds; the limit starts at the default in force at registration, changes only by the owner's successful purchase by exactly the purchased number (integer sum, no wrap) and never above the maximum in force; reported capacity = max(0, max - limit). Replayed against real histories with tiny limits, over-max and 2^63 / 2^64-1 slot counts, nested purchases and governance changes of the limits.",
+    "Trusted: as C07. Reading note (DESIGN section 5): 'most recent min(total, limit)' is stated as the sharper recurrence because pruned records cannot come back after a later purchase.")
+app_prop("C09", "reg,mixed", ["wrk", "bcn"],
+    "Coq theorems: the k-th successful registration gets start+k-1 (ids pairwise distinct, never reused); moniker, name, genesis/type, owner, registration time equal the submitted values in every later state; a record or purchase succeeds only for the registered owner; non-owners and unknown ids are rejected without effect. Replayed against real histories with many registrants and (signer, id) cross products.",
+    "Trusted: as C07.")
+app_prop("C10", "stream,mixed", ["str", "bank"],
+    "Coq theorems: for every history of stream operations (any times, amounts, rates, fee rates in [0,1]) the escrow account holds per denomination exactly the sum of remaining deposits; stream operations neither mint nor burn; each release pays floor(release*fee) to the fee collector and the rest to the receiver, debiting escrow and deposit by the release; other streams are untouched; failed operations change nothing. App-level frame: no other message moves the escrow (blocked address). Replayed against real histories incl. governance changes of the fee rate and transfers aimed at the escrow.",
+    "Trusted: Coq kernel; hand-written stream + bank model and its agreement with x/stream as far as generated histories go; LegacyDec.Mul of an integer by an 18-digit decimal is exact (modelled).")
+app_prop("C11", "stream", ["str", "bank"],
+    "Coq theorems for all rates in [1,2^63), all deposits, all time gaps: a release before the zero time pays exactly rate*floor(seconds since last release) (Go's Unix/nanosecond arithmetic proved equal to the floor), at/after it the whole remainder; create/top-up/update-flow set the zero time to now+floor(D/r) s, +floor(a/r) s, now+floor(D'/r') s; addSeconds never stores a wrapped time (a wrapped sum is unstorable, the tx aborts); the sustain invariant rate*(DZT-LOT) <= deposit*1e9 (or the stream is empty and expired) holds in every reachable state; hence a claim before the zero time never empties the stream and never pays more than rate*elapsed. Replayed against real histories and against the three pure functions on boundary tables.",
+    "Trusted: as C10. Block times are after 1970 and storable (years 1..9999).",
+    extra_harness={"harness": [{"cmd": "streamfn", "quick": ["-n", 3000], "thorough": ["-n", 200000, "-shard", 4000]}], "model_targets": ["model/StreamFnCheck.vo"]})
+app_prop("C12", "stream", ["str", "bank"],
+    "Coq theorems: in every state satisfying the stream invariant a claim on a funded stream succeeds, a cancel succeeds and refunds the unreleased remainder, an affordable top-up succeeds when the new zero time is representable; claim and cancel never return an arithmetic panic. The unrepresentable-top-up class is exhibited as a machine-checked witness (listed finding). Replayed against real histories with 18-decimal amounts above 2^63 and fee rates incl. 1.",
+    "Trusted: as C10.")
